@@ -2,6 +2,10 @@
 ENGINES = [
     {"name": "E1-choice", "path": "mc/explore_choice.py", "serves_properties": ["C01"],
      "kind_free_text": "stateless DFS over choice points of the real code, weighted, deviation-bounded"},
+    {"name": "E2-bfs", "path": "mc/explore_bfs.py", "serves_properties": ["C19"],
+     "kind_free_text": "explicit-state BFS over operation histories of real objects (replay from scratch, canonical-form dedup)"},
+    {"name": "lattice", "path": "mc/lattice.py", "serves_properties": ["C05", "C10", "C11", "C20"],
+     "kind_free_text": "complete enumeration of a finite configuration / program lattice against an independent reference"},
 ]
 NOTES = ("All checks explore the real mici code imported from /repo/src; no abstract model. "
          "Properties not yet claimed are listed under not_applicable with reason 'check not built yet' "
@@ -12,6 +16,36 @@ CLAIMED = {
         technique="exhaustive enumeration of all random-draw outcomes of Transition.sample (stateless choice-point DFS) with exact probabilities; stationarity checked on finite orbits",
         text="Every outcome of every random draw inside the real Transition.sample is enumerated with its exact probability on ring orbit tables (all energy tables over a 3-letter alphabet up to rotation, families of termination-criterion tables, all start states) and on windows of real integrator orbits; sum_i pi_i P(i->j) = pi_j is checked to 1e-10 and the reported n_step/accept statistics are checked in every execution.",
         note="Trusts CPython/NumPy; invariance is checked per orbit on finite tables/windows; continuous energies are a lattice.",
+    ),
+    "C05": dict(
+        engine="lattice", category="exploration", design_ref="DESIGN.md section 5 (C05)",
+        technique="complete enumeration of system class x metric type x return convention x dimension lattice; dense-reference and finite-difference oracle",
+        text="Every Hamiltonian value/derivative method of every system class (all eleven, each constant-metric type incl. implicit identity, low-rank up/downdates, every Riemannian family and SoftAbs coefficient, every accepted return convention, d=1..3) is compared at lattice states with a dense NumPy reference of the documented formula and with central differences of that reference; sum rules h=h1+h2 etc. are checked to rounding.",
+        note="Continuous inputs are a finite lattice (shifted by VERIF_SEED); FD oracle tolerance 2e-6; zoo derivatives self-tested.",
+    ),
+    "C10": dict(
+        engine="lattice", category="exploration", design_ref="DESIGN.md section 5 (C10)",
+        technique="exhaustive enumeration of matrix expression trees up to a depth bound; dense-algebra oracle on every node",
+        text="All expression trees up to depth 2 (quick) / 3 (thorough) over every matrix class x constructor option x size 1..3 and the composite constructors (block, low-rank with sign +-1, with/without inner and capacitance matrices) with operators T, inv, sqrt, neg, scalar *, /, and @ are evaluated and every observable (array, products, diagonal, log_abs_det, inverse, eigen-pairs, sqrt, transpose) compared with the same tree on dense arrays; type clause checked.",
+        note="Leaf parameters are a fixed well-conditioned lattice; tolerance 1e-10 scaled by magnitude and condition number.",
+    ),
+    "C11": dict(
+        engine="lattice", category="exploration", design_ref="DESIGN.md section 5 (C11)",
+        technique="complete enumeration of differentiable matrix class x option lattice; finite-difference oracle over free parameter entries",
+        text="Every DifferentiableMatrix class and option (sign +-1, lower/upper, inner matrix, SoftAbs coefficients, repeated eigenvalues, block compositions) at sizes 1..3(4): grad_log_abs_det and grad_quadratic_form_inv against central differences of the dense formulas over exactly the free parameter entries, including structure (zeros outside the triangle, tuple of blocks).",
+        note="FD step 1e-5, tolerance 2e-6 relative; symmetric perturbations for symmetric-array parameters.",
+    ),
+    "C19": dict(
+        engine="E2-bfs", category="model_checking", design_ref="DESIGN.md section 4 (C19)",
+        technique="explicit-state BFS over orders of lazy-attribute accesses and operations on real matrix objects; invariants in every state",
+        text="For every zoo matrix a BFS over public accesses/operations up to depth 2 (quick) / 3 (thorough) reaches every pattern of populated lazy slots; in every state: parameter arrays bit-identical, all observables equal to a fresh twin (order independence, operands unchanged), copies/deepcopies/pickles equal, in-place writes through caller-supplied or publicly reachable parameter arrays refused or without effect; == / hash clauses over all pairs and near-twin pairs.",
+        note="States merged by populated-slot pattern (argument in evidence assumptions); observables compared to 1e-12.",
+    ),
+    "C20": dict(
+        engine="lattice", category="exploration", design_ref="DESIGN.md section 5 (C20)",
+        technique="complete enumeration of a log-value lattice (incl. 1-ulp neighbours of branch points) x operators x accumulation sequences; high-precision decimal oracle",
+        text="All unary helpers on a lattice spanning the double range, all binary helpers and LogRepFloat operators on lattice^2, mixed operations with plain numbers in both operand orders, all in-place accumulation sequences of length <= 3 over 8 weights, against decimal arithmetic (130 digits with series, self-tested against 800-digit brute force).",
+        note="Mixed operations whose plain value underflows are not judged (documented to go through the linear representation).",
     ),
 }
 _ALL = ["C%02d" % i for i in range(1, 21)]
